@@ -140,6 +140,11 @@ where
 
         let mut session = user.session.unwrap();
 
+        // An expired session cannot be brought back to life by refreshing it
+        if !session.valid() {
+            return Err(AuthError::InvalidToken);
+        }
+
         session.refresh(self.config.default_refresh_lifetime);
 
         user.session = Some(session);
